@@ -108,6 +108,10 @@ def solve_milp(
     if root_result.status == LPStatus.UNBOUNDED:
         return Result(None, float("-inf") if minimize else float("inf"), 0, total_iters, Status.UNBOUNDED)
 
+    if root_result.status == LPStatus.MAX_ITER:
+        # The simplex budget ran out on the root relaxation: nothing is known about the problem yet
+        return Result(None, float("inf") if minimize else float("-inf"), 0, total_iters, Status.MAX_ITER)
+
     best_solution, best_obj = None, float("inf") if minimize else float("-inf")
     sign = 1 if minimize else -1
     all_solutions: list[tuple[float, ...]] = []
@@ -162,6 +166,7 @@ def solve_milp(
     heappush(tree, (root_bound, counter, Node(root_bound, tuple(lower), tuple(upper), 0)))
     counter += 1
     nodes_explored = 0
+    lp_budget_hit = False  # some node LP ran out of simplex iterations: its subtree is unexplored
 
     while tree and nodes_explored < max_nodes:
         node_bound, _, node = heappop(tree)
@@ -175,6 +180,8 @@ def solve_milp(
         nodes_explored += 1
 
         if result.status != LPStatus.OPTIMAL:
+            if result.status == LPStatus.MAX_ITER:
+                lp_budget_hit = True
             continue
 
         if best_solution is not None and sign * result.objective >= sign * best_obj - eps:
@@ -203,7 +210,7 @@ def solve_milp(
             if sign * sol_obj < sign * best_obj:
                 best_solution, best_obj = sol, sol_obj
                 gap = _compute_gap(best_obj, node_bound / sign if node_bound != 0 else 0)
-                if gap < gap_tol and solution_limit == 1:
+                if gap < gap_tol and solution_limit == 1 and not lp_budget_hit:
                     return Result(best_solution, best_obj, nodes_explored, total_iters)
 
             continue
@@ -226,10 +233,10 @@ def solve_milp(
     if best_solution is None:
         # Without an incumbent the problem is infeasible only if every node was explored;
         # open nodes left behind mean the node budget ran out first.
-        no_incumbent = Status.INFEASIBLE if not tree else Status.MAX_ITER
+        no_incumbent = Status.INFEASIBLE if not tree and not lp_budget_hit else Status.MAX_ITER
         return Result(None, float("inf") if minimize else float("-inf"), nodes_explored, total_iters, no_incumbent)
 
-    status = Status.OPTIMAL if not tree else Status.FEASIBLE
+    status = Status.OPTIMAL if not tree and not lp_budget_hit else Status.FEASIBLE
     if solution_limit > 1 and all_solutions:
         return Result(best_solution, best_obj, nodes_explored, total_iters, status, solutions=tuple(all_solutions))
     return Result(best_solution, best_obj, nodes_explored, total_iters, status)
